@@ -237,6 +237,9 @@ func (ch *channel) SendEnd(ctx async.Context) status.Status {
 // The message is valid until the next call to Receive/ReceiveAsync.
 func (ch *channel) Receive(ctx async.Context) ([]byte, status.Status) {
 	for {
+		// Arm the wait channel before polling, see mpx channel.Receive.
+		wait := ch.ReceiveWait()
+
 		msg, ok, st := ch.ReceiveAsync(ctx)
 		switch {
 		case !st.OK():
@@ -248,7 +251,7 @@ func (ch *channel) Receive(ctx async.Context) ([]byte, status.Status) {
 		select {
 		case <-ctx.Wait():
 			return nil, ctx.Status()
-		case <-ch.ReceiveWait():
+		case <-wait:
 		}
 	}
 }
